@@ -156,10 +156,7 @@ func c17AllPerms(k int) [][]int {
 // c17Perm: a permutation of 1..k chosen by forking; index 0 stays the root
 func c17Perm(k int) []int {
 	all := c17AllPerms(k)
-	c := nondetInt()
-	vassume(c >= 0)
-	vassume(c < len(all))
-	return all[vconcrete(c)]
+	return all[vchoose(len(all))]
 }
 
 func c17Identity(k int) []int {
@@ -214,13 +211,8 @@ func c17Monotone(k, maxUses int) {
 	s := c17Make(k, maxUses)
 	g := &SerializedGraph{nodes: s.nodes(c17Identity(k))}
 	before := c17Verdicts(k, g.Results())
-	from := nondetInt()
-	to := nondetInt()
-	vassume(from >= 0)
-	vassume(from <= k)
-	vassume(to >= 1)
-	vassume(to <= k)
-	from, to = vconcrete(from), vconcrete(to)
+	from := vchoose(k + 1)
+	to := 1 + vchoose(k)
 	vassume(from == 0 || before[from] == 0)
 	nodes := s.nodes(c17Identity(k))
 	nodes[from].uses = append(nodes[from].uses, NodeID(to))
